@@ -11,7 +11,7 @@ verdict per harness:
 import json, os, re, resource, subprocess, sys, time, signal
 
 CHECKS = ['--bounds-check', '--pointer-check', '--signed-overflow-check', '--undefined-shift-check',
-          '--div-by-zero-check', '--pointer-primitive-check']
+          '--div-by-zero-check', '--no-pointer-primitive-check']
 SUSPICIOUS = ['ignoring forall', 'ignoring exists', 'Parse Error', 'too many addressed objects']
 
 def _limit(mem_gb):
@@ -90,7 +90,8 @@ def reduce_trace(tr):
             out.append(dict(failure=st.get('property'), reason=st.get('reason'), line=st.get('sourceLocation', {}).get('line')))
     return out[-400:]
 
-def run_harness(cfile, h, outdir, reach=False, timeout=None, extra_defs=(), mem_gb=8):
+def run_harness(cfile, h, outdir, reach=False, timeout=None, extra_defs=(), mem_gb=None):
+    mem_gb = mem_gb or float(h.get('mem', 8))
     os.makedirs(outdir, exist_ok=True)
     timeout = timeout or int(h.get('timeout', 300))
     cc, gi, cb = harness_cmds(cfile, h, outdir, reach, extra_defs)
